@@ -43,17 +43,19 @@ def worker(job):
     prng = random.Random(seed)
     rec = {"fn": fn, "dtype": dtype, "fail": []}
     r = prng.choice([1, 1, 2, 3])
-    if big:
+    if big == -1:
+        shape = (6,)        # directed: type extremes (min, min+1, max, ...) in both sort directions
+    elif big:
         shape = (big,)
     else:
         shape = tuple(prng.choice([1, 2, 3, 4, 7]) for _ in range(r))
         if prng.random() < 0.2:
             shape = (prng.choice([1, 17, 130, 300]),)
-    extremes = prng.random() < (0.5 if dtype == "uint64" else 0.25)
+    extremes = big == -1 or prng.random() < (0.5 if dtype == "uint64" else 0.4)
     x = values(rng, dtype, shape, dup=prng.random() < 0.7, extremes=extremes)
     rec["shape"] = list(shape); rec["extremes"] = extremes
     ax = prng.randrange(-len(shape), len(shape))
-    desc = prng.random() < 0.4
+    desc = (seed % 2 == 0) if big == -1 else prng.random() < 0.4
     params = {}
 
     def check(mode, ok, kind, detail):
@@ -176,10 +178,11 @@ def run(ctx: common.Ctx):
         "distinct = distinct (function, dtype, seed); non-trivial = more than one element")
     quick = ctx.tier == "quick"
     fns = ["sort", "argsort", "unique_all", "unique_counts", "unique_inverse", "unique_values", "searchsorted", "nonzero", "where"]
-    weight = {"searchsorted": 4, "sort": 2, "argsort": 2, "where": 2}
+    weight = {"searchsorted": 4, "sort": 3, "argsort": 4, "where": 2}
     import zlib
     jobs = [(fn, d, zlib.crc32(f"{fn}/{d}/{ctx.seed}/{k}".encode()), 0) for fn in fns for d in NUM
             for k in range((4 if quick else 60) * weight.get(fn, 1))]
+    jobs += [(fn, d, k, -1) for fn in ("sort", "argsort") for d in impl.INTS for k in range(4)]
     if not quick:
         jobs += [(fn, d, 5, 70000) for fn in ("sort", "argsort", "unique_all") for d in ("int8", "uint16", "float32", "int64")]
     else:
